@@ -158,38 +158,80 @@ def header_text(ctx):
 
 
 class CH(H):
-    def __init__(self, rtype, resolved, operand):
+    """disas_constant: the type tracker resolves the result type to `tracked` (a Type value or None); the literal renderers the
+    function is written in terms of are evaluated in place (a trait implemented for u32 / u64 is dispatched by the operand's width)"""
+
+    def __init__(self, rtype, tracked, operand):
         H.__init__(self, rid=True, rtype=rtype, operands=[operand] if operand is not None else [])
-        self.resolved = resolved
+        self.tracked = tracked
+        self.bits = "u64" if (operand is not None and operand[1].endswith("LiteralBit64")) else "u32"
+        self.opcode = "Constant"
 
     def field(self, base, name, e):
         if base == ("inst",) and name == "result_type" and self.rtype:
             return ("some", ("sym", "RTYPE"))
         return H.field(self, base, name, e)
 
-    def mcall(self, recv, m, args, e, ev):
-        if recv == ("typetracker",) and m == "resolve" and len(args) == 1:
-            return ("some", ("sym", "TYPE")) if self.resolved else NONE
-        return H.mcall(self, recv, m, args, e, ev)
+    def _impl(self, name):
+        from .progx import _index
+        import vcheck.symeval as _se
+        ctx = _se.DEFAULT_CTX
+        if ctx is None:
+            return None
+        meth, free, consts = _index(ctx)
+        c = meth.get((self.bits, name), [])
+        return c[0] if len(c) == 1 else None
 
     def call(self, p, args, e):
-        if p.split("::")[-1] in ("disas_literal_bit_operand", "disas_literal_bit") and len(args) == 2:
-            return ("litbit", args[0], args[1])
+        segs = p.split("::")
+        if segs[-1] == "from_bits" and len(args) == 1 and len(segs) >= 2:
+            return ("from_bits", segs[-2], args[0])
+        if len(segs) >= 2 and segs[-2][:1].isupper() and len(args) == 2 and args[0] == ("sym", "V0"):
+            f = self._impl(segs[-1])       # Trait::method(value, ..) with the trait implemented for u32 and u64
+            if f is not None:
+                return ("impl-call", f, args)
         return NotImplemented
 
     def mcall(self, recv, m, args, e, ev):
         if recv == ("typetracker",) and m == "resolve" and len(args) == 1:
-            return ("some", ("sym", "TYPE")) if self.resolved else NONE
-        if m == "disas_literal_bit" and len(args) == 1:
-            return ("litbit", recv, args[0])
+            return ("some", self.tracked) if self.tracked is not None else NONE
+        if recv == ("sym", "V0") and args:
+            f = self._impl(m)
+            if f is not None:
+                return ("impl-call", f, [recv] + list(args))
         return H.mcall(self, recv, m, args, e, ev)
 
 
-def constant(ctx, rtype, resolved, operand):
+def constant(ctx, rtype, tracked, operand):
+    """tracked: True (some tracked type, symbolic), None / False (untracked) or a Type value"""
     f = ctx.rspirv.fn(DIS, "disas_constant")
     ps = [p[0] for p in f["sig"]["params"]]
-    h = CH(rtype, resolved, operand)
+    if tracked is True:
+        tracked = ("enum", "Type::Integer", [("sym", "W"), False])
+    elif tracked is False:
+        tracked = None
+    h = CH(rtype, tracked, operand)
+    ev = SymEval(h, "disas_constant")
     try:
-        return SymEval(h, "disas_constant").run(f, {ps[0]: ("inst",), ps[1]: ("typetracker",)})
+        r = ev.run(f, {ps[0]: ("inst",), ps[1]: ("typetracker",)})
     except SPanic as x:
         return ("panic", str(x))
+    return resolve_impl_calls(ev, r)
+
+
+def resolve_impl_calls(ev, v):
+    """('impl-call', fn, args) placeholders (trait methods dispatched on the literal's width) -> the value of that function"""
+    from ..symeval import Scope, Return
+    if isinstance(v, tuple) and v and v[0] == "impl-call":
+        f, args = v[1], v[2]
+        ps = [q[0] for q in f["sig"]["params"]]
+        try:
+            r = ev.block(f["body"], Scope(dict(zip(ps, args))))
+        except Return as x:
+            r = x.v
+        return resolve_impl_calls(ev, r)
+    if isinstance(v, tuple):
+        return tuple(resolve_impl_calls(ev, x) for x in v)
+    if isinstance(v, list):
+        return [resolve_impl_calls(ev, x) for x in v]
+    return v
